@@ -59,26 +59,19 @@ pub fn load_configs_raw(config_files: Vec<PathBuf>, partial_emmyrcs: Option<Vec<
 
     if config_jsons.is_empty() {
         log::info!("No valid config file found.");
-        Value::Object(Default::default())
-    } else if config_jsons.len() == 1 {
-        let first_config = config_jsons.into_iter().next().unwrap_or_else(|| {
-            log::error!("No valid config file found.");
-            Value::Object(Default::default())
-        });
-
-        let flatten_config = FlattenConfigObject::parse(first_config);
-        flatten_config.to_emmyrc()
-    } else {
-        let merge_config =
-            config_jsons
-                .into_iter()
-                .fold(Value::Object(Default::default()), |mut acc, item| {
-                    merge_values(&mut acc, item);
-                    acc
-                });
-        let flatten_config = FlattenConfigObject::parse(merge_config.clone());
-        flatten_config.to_emmyrc()
+        return Value::Object(Default::default());
     }
+
+    // Every file is brought to the nested form before merging, so that a flat key
+    // (`"diagnostics.enable"`) and its nested spelling denote the same setting and the
+    // later file wins whichever spelling each file uses.
+    config_jsons
+        .into_iter()
+        .map(|config_json| FlattenConfigObject::parse(config_json).to_emmyrc())
+        .fold(Value::Object(Default::default()), |mut acc, item| {
+            merge_values(&mut acc, item);
+            acc
+        })
 }
 
 pub fn load_configs(config_files: Vec<PathBuf>, partial_emmyrcs: Option<Vec<Value>>) -> Emmyrc {
@@ -104,7 +97,8 @@ fn merge_values(base: &mut Value, overlay: Value) {
             }
         }
         (Value::Array(base_array), Value::Array(overlay_array)) => {
-            let mut seen = HashSet::new();
+            // items already present in the base are not appended again
+            let mut seen: HashSet<Value> = base_array.iter().cloned().collect();
             base_array.extend(
                 overlay_array
                     .into_iter()
@@ -114,5 +108,43 @@ fn merge_values(base: &mut Value, overlay: Value) {
         (base_slot, overlay_value) => {
             *base_slot = overlay_value;
         }
+    }
+}
+
+#[cfg(test)]
+mod tests {
+    use super::*;
+    use serde_json::json;
+
+    fn merged(files: Vec<Value>) -> Value {
+        load_configs_raw(Vec::new(), Some(files))
+    }
+
+    #[test]
+    fn later_file_wins_whichever_spelling() {
+        let flat_false = json!({"diagnostics.enable": false});
+        let nested_true = json!({"diagnostics": {"enable": true}});
+        assert_eq!(
+            merged(vec![flat_false.clone(), nested_true.clone()]),
+            json!({"diagnostics": {"enable": true}})
+        );
+        assert_eq!(
+            merged(vec![nested_true, flat_false]),
+            json!({"diagnostics": {"enable": false}})
+        );
+    }
+
+    #[test]
+    fn arrays_are_appended_without_duplicates() {
+        let file = json!({"diagnostics": {"globals": ["a"]}});
+        assert_eq!(merged(vec![file.clone(), file.clone()]), file);
+        assert_eq!(
+            merged(vec![json!({"x": ["a", "b"]}), json!({"x.y": 1, "x": ["b", "c"]})]),
+            json!({"x": {"y": 1}})
+        );
+        assert_eq!(
+            merged(vec![json!({"x": ["a", "b"]}), json!({"x": ["b", "c", "c"]})]),
+            json!({"x": ["a", "b", "c"]})
+        );
     }
 }
